@@ -57,7 +57,22 @@ FLOORS = {"CUT-auth": 20, "MATRIX-classified": 20, "ARG-assert_owner": 3, "ARG-u
 CONTRACTS = ["pool_manager", "farm_manager", "epoch_manager", "fee_collector"]
 
 
+def initial_owner(W, chk):
+    """who becomes the owner at instantiation: the `owner` the deployer names when the instantiate message has such a field (the
+    message reads msg.owner), otherwise the deployer; exactly one initialize_owner call per contract"""
+    for c in CONTRACTS:
+        A = W.run(c, "instantiate", None)
+        calls = A.calls(r"cw_ownable::initialize_owner$")
+        used = {o for e in A.events for v in e.vals for o in all_origins(v) if o == "msg.owner"}
+        want = {"msg.owner"} if used else {"info.sender"}
+        got = exact_origins(calls[0].extra["dargs"][2]) if calls and len(calls[0].extra.get("dargs", [])) > 2 else set()
+        chk.expect(len(calls) == 1 and got == want, "PROV-initial-owner", c, "initial owner <- %s" % sorted(want),
+                   "%d initialize_owner call(s); the initial owner is taken from %s although the instantiate message %s" % (
+                       len(calls), sorted(got), "names an owner (msg.owner)" if used else "has no owner field"), where(calls[0]) if calls else A.entry)
+
+
 def run(W, chk):
+    initial_owner(W, chk)
     # ---- matrix completeness
     for c in CONTRACTS:
         paths, _ = W.variant_paths(c, "execute")
